@@ -417,9 +417,10 @@ def answersTheQuestion (q : Query) (an : List Rec) : Bool :=
   an.any fun r => r.name == q.name &&
     (r.rtype == q.qtype || r.rtype == 5 || (q.qtype == 255 && r.rtype != tRRSIG))
 
-/-- a record of the query name and type in the answer section -/
-def plainAnswer (q : Query) (an : List Rec) : Bool :=
-  an.any fun r => r.name == q.name && r.rtype == q.qtype
+/-- a record of the query name and type in the answer section — or a CNAME at the query name, unless the authority
+section carries a SOA, i.e. a negative part for the end of the alias chain (fix 1223dc5) -/
+def plainAnswer (q : Query) (an ns : List Rec) : Bool :=
+  an.any fun r => r.name == q.name && (r.rtype == q.qtype || (r.rtype == 5 && !(ns.any (·.rtype == tSOA))))
 
 def verifyMsg (env : Env) (sub : Query → Res) (d : Nat) (q : Query) (qid : Nat) (m : Msg) : Res :=
   let va := verdicts env sub d q qid 0 m.an
@@ -443,8 +444,8 @@ def verifyMsg (env : Env) (sub : Query → Res) (d : Nat) (q : Query) (qid : Nat
     | some r => r
     | none =>
       -- a plain positive NOERROR answer (an RRset of the query name and type, no wildcard expansion) asserts no
-      -- non-existence: denial records attached to it are not evaluated (fix a0f75fc)
-      if !mustValidateNsec m.an va && m'.rcode == 0 && plainAnswer q m'.an then .ok m' else
+      -- non-existence: denial records attached to it are not evaluated (fixes a0f75fc, 1223dc5)
+      if !mustValidateNsec m.an va && m'.rcode == 0 && plainAnswer q m'.an m'.ns then .ok m' else
       let nsec3s := selectDenial m'.ns tNSEC3
       let nsecs := selectDenial m'.ns tNSEC
       let ansMask := maskOf (m'.an.zipIdx.filter fun ri => ri.1.isSig && ri.1.proof == .secure)
